@@ -180,7 +180,7 @@ func (f *Replace) checkStartEnd(s *slip.Scope, start, end, size, depth int) int 
 	if size == 0 && start == 0 && end == -1 {
 		return 0
 	}
-	if size <= start {
+	if size < start {
 		slip.ErrorPanic(s, depth, "Start of %d is out of bounds for sequence-1 with length %d.", start, size)
 	}
 	if end == -1 {
